@@ -538,6 +538,18 @@ pub fn run(cfg: &Cfg, rep: &mut Report) {
                 check_value(&Variable::String(Arc::from(format!("C:{bs}{c}ric{bs}"))), rep);
             }
         }
+        // every ordered pair of the special characters, alone and inside text / arrays (CR LF, LF CR, quote after
+        // backslash, combining mark after control ...)
+        for a in CHARS {
+            for b in CHARS {
+                check_value(&Variable::String(Arc::from(format!("{a}{b}"))), rep);
+                check_value(&Variable::from(vec![Variable::String(Arc::from(format!("x{a}{b}y{a}{b}"))), Variable::Int(1)]), rep);
+            }
+        }
+        for t in ["dos\r\nlines\r\n", "\r\n", "\n\r", "a\rb\nc", "\r\r\n\n", "tab\there", "\u{1b}[0m", "nul\0\0", "\u{feff}bom", "line\u{2028}sep\u{2029}"] {
+            check_value(&Variable::String(Arc::from(t)), rep);
+            check_value(&Variable::Tuple(Arc::from([Variable::String(Arc::from(t)), Variable::String(Arc::from(t))])), rep);
+        }
         // all 1-char strings over the C0/C1 range followed by a digit
         for c in (0u32..0xA0).filter_map(char::from_u32) {
             check_value(&Variable::String(Arc::from(format!("{c}0"))), rep);
